@@ -857,7 +857,7 @@ def random_case(rng):
         sym = 'PGM%d' % (n + 1)
         ph = rng.choice(PH)
         use = {'k': 'spawn', 'kind': 'run-sym', 'sym': sym, 'ds': [rng.choice([0, 1, 2, 4, 9])]}
-        c['phases'][ph].insert(rng.randint(0, len(c['phases'][ph])), use)
+        c['phases'][ph].insert(rng.randint(n if ph == 'setup' else 0, len(c['phases'][ph])), use)
         c['phases']['setup'].insert(0, {'k': 'defprog', 'sym': sym})
     # only the last stdin counts in the implementation as in the model; keep at most one to keep tags unambiguous
     seen = False
